@@ -53,7 +53,7 @@ MUTATION_DRILLS = [
 def _hist_plan(tier):
     if tier == "quick":
         return dict(n=27, steps=6, sweep_budget_s=75, sys_histories=0)
-    return dict(n=150, steps=8, sweep_budget_s=420, sys_histories=60, sys_budget_s=540)
+    return dict(n=300, steps=8, sweep_budget_s=540, sys_histories=150, sys_budget_s=480)
 
 
 def _canon_names(dbs):
@@ -191,6 +191,12 @@ def run(ctx):
     def judge(h, kind, p, rc, dump, derr, klog_order, expect_rc, R):
         """compare one killed run with the model and with the R-states"""
         stats["kill_runs"] += 1
+        if kind != "op" and rc == 0 and expect_rc == 137:
+            # LevelDB removes obsolete files from a background thread: the number of
+            # file-system calls of a run varies by one or two, so the last kill indices of
+            # the counting run may not be reached - then this is simply a complete run
+            stats["sys_kill_not_reached"] = stats.get("sys_kill_not_reached", 0) + 1
+            expect_rc = 0
         if rc != expect_rc or dump is None:
             run_anomaly.append((h, kind, p, "rc=%s expected %s %s" % (rc, expect_rc, derr)))
             return
